@@ -524,7 +524,14 @@ impl Check {
             coverage.insert(k.clone(), json!(v.len()));
         }
         for (k, v) in &g.notes {
-            coverage.insert(k.clone(), v.clone());
+            if k == "exhaustive" && !v.is_boolean() {
+                // the evidence schema wants a boolean; keep the description next to it
+                let overall = v.get("overall").and_then(|b| b.as_bool()).unwrap_or(false);
+                coverage.insert("exhaustive".into(), json!(overall));
+                coverage.insert("exhaustive_detail".into(), v.clone());
+            } else {
+                coverage.insert(k.clone(), v.clone());
+            }
         }
         coverage.insert("inconclusive_cases".into(), json!(g.inconclusive_count));
         if !g.inconclusive.is_empty() {
